@@ -137,12 +137,16 @@ class Gen:
             if p == 'true':
                 return True
             if p == 'bytes':
-                a = ch.choose(path + ':bytes', len(LENGTHS) + (2 if depth < 3 else 0))
+                a = ch.choose(path + ':bytes', len(LENGTHS) + (4 if depth < 3 else 0))
                 if a < len(LENGTHS):
                     return self.opaque(LENGTHS[a])
                 if a == len(LENGTHS):
                     return {'@type': 'dht.ping', 'random_id': 0x1122334455667788}
-                return {'@type': 'adnl.message.query', 'query_id': 'ab' * 32, 'query': self.opaque(7)}
+                if a == len(LENGTHS) + 1:
+                    return {'@type': 'adnl.message.query', 'query_id': 'ab' * 32, 'query': self.opaque(7)}
+                if a == len(LENGTHS) + 2:
+                    return {'@type': 'liteServer.getMasterchainInfo'}        # an object WITHOUT fields: its encoding is the 4-byte id alone
+                return {'@type': 'liteServer.query', 'data': {'@type': 'liteServer.getTime'}}     # ... and one level down
             if p == 'string':
                 a = ch.choose(path + ':string', 2 * len(LENGTHS))
                 return self.text(LENGTHS[a % len(LENGTHS)], a >= len(LENGTHS))
